@@ -26,6 +26,35 @@ def cls_default(verdict, case):
     return w[0] + "-" + re.sub(r"\(.*$", "", w[1])
 
 
+def cls_tagged(prefix):
+    """classifier for the full-stack driver: a verdict carries every failing clause, each starting with a tag
+    "<Cxx>.<clause-id>" ("inv C03.I4 ... ;; C09.R2 ..." or "diff core.<op> ... ;; C03.I1 ..."). A property's check takes
+    the clauses tagged with its own id; class = the tag. A model/implementation difference (diff core.*) is reported by
+    the properties in DIFF_OWNERS; a recovered panic or a hang by C13."""
+    def f(verdict, case):
+        out = []
+        body = verdict[4:] if verdict.startswith("inv ") else verdict
+        for part in body.split(" ;; "):
+            w = part.split()
+            if not w:
+                continue
+            if w[0] == "diff":
+                if prefix in DIFF_OWNERS:
+                    out.append("diff-" + w[1] + ("-" + w[2] if len(w) > 2 else ""))
+            elif w[0] in ("panic", "hang"):
+                if prefix in ("C13",):
+                    out.append(w[0] + "-" + "-".join(x.strip('"') for x in w[1:3]))
+            elif w[0].startswith(prefix + "."):
+                out.append(w[0])
+        return out
+    return f
+
+
+# a difference between the stepped Core model and the implementation is reported by the properties whose theorems are
+# about that model
+DIFF_OWNERS = {"C03"}
+
+
 def nontrivial_res(line):
     # a resource case is trivial when both vectors are nil/empty
     return not ('"l":null' in line and '"r":null' in line) and not ('"l":[]' in line and '"r":[]' in line)
@@ -145,6 +174,22 @@ PROPS = {
 }
 
 
+def strip_case(case):
+    """replay files carry the inputs only: the dumped state and the messages are regenerated when replaying"""
+    out = []
+    for l in case:
+        if '"st":' in l or '"msgs":' in l:
+            try:
+                d = json.loads(l)
+                for k in ("st", "msgs"):
+                    d.pop(k, None)
+                l = json.dumps(d)
+            except ValueError:
+                pass
+        out.append(l)
+    return out
+
+
 def write_replay(pid, tag, seed, lines, header):
     os.makedirs(REPLAYS, exist_ok=True)
     p = os.path.join(REPLAYS, "%s-%s-%d.jsonl" % (pid, re.sub(r"[^A-Za-z0-9_.-]", "_", tag)[:60], seed))
@@ -208,16 +253,19 @@ def decide(run, cfg, replay):
     for c in corrs:
         machinery_errors += c.errors
         for seed, case, v in c.fail:
-            cl = cfg["classify"](v, case)
             if v.startswith("bad-op") or v == "missing-verdict":
                 machinery_errors.append("%s: %s on %s" % (c.comp, v, case[-1][:200]))
                 continue
-            if cl in known_classes:
-                known_seen.setdefault(cl, v)
-                continue
-            if cl not in violations:
-                path = write_replay(pid, cl, seed, case, "property=%s class=%s verdict: %s" % (pid, cl, v))
-                violations[cl] = (path, v)
+            cls = cfg["classify"](v, case)
+            if isinstance(cls, str):
+                cls = [cls]
+            for cl in cls:
+                if cl in known_classes:
+                    known_seen.setdefault(cl, v)
+                    continue
+                if cl not in violations:
+                    path = write_replay(pid, cl, seed, strip_case(case), "property=%s class=%s verdict: %s" % (pid, cl, v))
+                    violations[cl] = (path, v)
 
     # ------------------------------------------------------------------ output
     rc = 0
@@ -284,6 +332,7 @@ def decide(run, cfg, replay):
             regenerated=sorted(getattr(run, "gen_snapshot", {}).keys()),
             evaluations=lines, distinct_nontrivial=nontriv, distinct_lines=len(distinct),
             traces_validated_against_impl=sum(c.ok for c in corrs),
+            lines_outside_stepped_model=sum(c.ok_unmodelled for c in corrs),
             rule=cfg["rule"], samples=samples[:6] or [{"note": "no correspondence lines in this run"}],
             generator_distribution=stats,
             corpus_files=[c.corpus for c in corrs if c.corpus],
